@@ -1,9 +1,188 @@
-//! stub
-use super::Ctx;
-use crate::engine::evidence::{Case, Report, Verdict};
-pub fn run(_ctx: &Ctx, _rep: &mut Report) {
-    crate::engine::monitor::machinery_fail("not implemented");
+//! C16 - two-card hand from a bit-set: succeeds exactly for two card bits, round-trips.
+//!
+//! Spaces: 0; all 64 x 64 one- and two-bit values; all C(64,3) three-bit values; for every population count
+//! p = 0..=64 every cyclic run of p bits, every "run with one hole / one extra bit" neighbour and the complements
+//! (a deterministic replacement for "random values of every population count"); thorough: all C(64,4) four-bit
+//! values and their complements.
+//! Oracle: popcount rule + deck order.
+use super::{confirm, sample_json, Ctx};
+use crate::engine::enumerate::par_parts;
+use crate::engine::evidence::{Acc, Case, Report, Verdict};
+use crate::engine::monitor::{self, guard};
+use crate::oracle::cards::{show_words, Card};
+use ckc_rs::cards::binary_card::{BinaryCard, BC64};
+use ckc_rs::cards::two::Two;
+use ckc_rs::HandError;
+use std::time::Instant;
+
+#[derive(Debug, PartialEq, Clone)]
+enum Outcome {
+    Ok([u32; 2]),
+    NotEnough,
+    TooMany,
+    InvalidFormat,
+    Other(String),
 }
-pub fn judge(_case: &Case) -> Verdict {
-    Verdict::NotJudged("not implemented".into())
+
+fn model(b: u64) -> Outcome {
+    match b.count_ones() {
+        0 | 1 => Outcome::NotEnough,
+        2 => {
+            let hi = 63 - b.leading_zeros();
+            let lo = b.trailing_zeros();
+            if hi < 52 {
+                // deck order: the higher bit is the earlier deck card
+                Outcome::Ok([Card::from_deck_index(51 - hi as usize).word(), Card::from_deck_index(51 - lo as usize).word()])
+            } else {
+                Outcome::InvalidFormat
+            }
+        }
+        _ => Outcome::TooMany,
+    }
+}
+
+fn observe(b: u64) -> (Outcome, Option<u64>) {
+    match Two::try_from(b) {
+        Ok(t) => (Outcome::Ok(t.to_arr()), Some(BinaryCard::from_two(t))),
+        Err(HandError::NotEnoughCards) => (Outcome::NotEnough, None),
+        Err(HandError::TooManyCards) => (Outcome::TooMany, None),
+        Err(HandError::InvalidBinaryFormat) => (Outcome::InvalidFormat, None),
+        Err(e) => (Outcome::Other(format!("{:?}", e)), None),
+    }
+}
+
+fn show(o: &Outcome) -> String {
+    match o {
+        Outcome::Ok(a) => format!("Ok([{}])", show_words(a)),
+        x => format!("{:?}", x),
+    }
+}
+
+/// Case kind: "try_from" [64-bit value].
+pub fn judge(case: &Case) -> Verdict {
+    if case.kind != "try_from" {
+        return Verdict::NotJudged("unknown kind".into());
+    }
+    let b = case.words.first().copied().unwrap_or(0);
+    let exp = model(b);
+    match guard(|| observe(b)) {
+        Err(p) => Verdict::Violated { class: "panic:try_from".into(), expected: show(&exp), observed: format!("panic: {}", p) },
+        Ok((got, back)) => {
+            if got != exp {
+                return Verdict::Violated { class: format!("try_from:expected-{}-got-{}", kindname(&exp), kindname(&got)), expected: format!("{} for bit-set {:#x} ({} bits)", show(&exp), b, b.count_ones()), observed: show(&got) };
+            }
+            if let Some(bb) = back {
+                if bb != b {
+                    return Verdict::Violated { class: "round-trip:set-hand-set".into(), expected: format!("{:#x}", b), observed: format!("{:#x}", bb) };
+                }
+            }
+            Verdict::Holds
+        }
+    }
+}
+fn kindname(o: &Outcome) -> &'static str {
+    match o {
+        Outcome::Ok(_) => "Ok",
+        Outcome::NotEnough => "NotEnoughCards",
+        Outcome::TooMany => "TooManyCards",
+        Outcome::InvalidFormat => "InvalidBinaryFormat",
+        Outcome::Other(_) => "OtherError",
+    }
+}
+
+fn check(acc: &mut Acc, b: u64) {
+    acc.cases += 1;
+    acc.calls += 1;
+    let exp = model(b);
+    let idx = match exp {
+        Outcome::Ok(_) => 0,
+        Outcome::NotEnough => 1,
+        Outcome::TooMany => 2,
+        _ => 3,
+    };
+    acc.hist[idx] += 1;
+    if b.count_ones() == 2 {
+        acc.nontrivial += 1;
+    }
+    let ok = match guard(|| observe(b)) {
+        Ok((got, back)) => got == exp && back.map(|x| x == b).unwrap_or(true),
+        Err(_) => false,
+    };
+    if !ok {
+        match confirm(judge, Case::new("try_from", &[b])) {
+            Some(v) => acc.violate(v),
+            None => monitor::machinery_fail("C16 mismatch not reproduced"),
+        }
+    }
+}
+
+pub fn run(ctx: &Ctx, rep: &mut Report) {
+    let names = ["expected_Ok", "expected_NotEnoughCards", "expected_TooManyCards", "expected_InvalidBinaryFormat"];
+    {
+        let t0 = Instant::now();
+        let mut acc = Acc::new(4);
+        check(&mut acc, 0);
+        for i in 0..64 {
+            for j in 0..64 {
+                check(&mut acc, 1u64 << i | 1u64 << j);
+            }
+        }
+        rep.add_space("0 and all 64 x 64 one- and two-bit values", &acc, t0, "");
+        rep.hist_named("one/two bits:", &names, &acc.hist);
+        rep.guard("all four outcome kinds expected within the one/two-bit space plus three bits", acc.hist[0] > 0 && acc.hist[1] > 0 && acc.hist[3] > 0, format!("{:?}", acc.hist));
+    }
+    {
+        let t0 = Instant::now();
+        let mut acc = Acc::new(4);
+        for i in 0..64 {
+            for j in 0..i {
+                for k in 0..j {
+                    check(&mut acc, 1u64 << i | 1u64 << j | 1u64 << k);
+                }
+            }
+        }
+        rep.add_space("all C(64,3) three-bit values", &acc, t0, "");
+        rep.guard("three-bit values all expect TooManyCards", acc.hist[2] == acc.cases, format!("{:?}", acc.hist));
+    }
+    {
+        let t0 = Instant::now();
+        let mut acc = Acc::new(4);
+        for p in 0..=64u32 {
+            let run: u64 = if p == 64 { u64::MAX } else { (1u64 << p) - 1 };
+            for rot in 0..64 {
+                let b = run.rotate_left(rot);
+                check(&mut acc, b);
+                check(&mut acc, !b);
+                // one hole / one extra bit next to the run
+                for k in 0..64 {
+                    check(&mut acc, b ^ (1u64 << k));
+                }
+            }
+        }
+        rep.add_space("every cyclic run of p = 0..=64 bits, its complement and all its one-bit neighbours", &acc, t0, "every population count is met");
+        rep.hist_named("runs:", &names, &acc.hist);
+    }
+    if ctx.tier.thorough() {
+        let t0 = Instant::now();
+        let accs = par_parts(64, |i| {
+            let mut acc = Acc::new(4);
+            for j in 0..i {
+                for k in 0..j {
+                    for l in 0..k {
+                        let b = 1u64 << i | 1u64 << j | 1u64 << k | 1u64 << l;
+                        check(&mut acc, b);
+                        check(&mut acc, !b);
+                    }
+                }
+            }
+            acc
+        });
+        let acc = Acc::merged(accs);
+        rep.add_space("all C(64,4) four-bit values and their complements", &acc, t0, "");
+    }
+    rep.sample(sample_json("try_from", "bits 51 and 0", &show(&observe(1 << 51 | 1).0)));
+    rep.sample(sample_json("try_from", "bits 52 and 0", &show(&observe(1 << 52 | 1).0)));
+    rep.sample(sample_json("try_from", "bit 7 only", &show(&observe(1 << 7).0)));
+    rep.rule = "distinct 64-bit values; non-trivial = values with exactly two bits set (the only ones for which success, card order and the round trip are at stake)".into();
+    rep.bound = "complete for population count <= 3 (thorough: <= 4 and >= 60); structured families for every other population count".into();
 }
